@@ -295,7 +295,7 @@ def check_property(prop, tier, seed, jobs=None):
     for r in results:
         if r.get("n_obligations", 0) == 0 and not r["crashes"]:
             vacuous.append("%s: no obligations generated" % r["unit"])
-        if r["covers"] and not any(c[1] == "sat" for c in r["covers"]):
+        if r["covers"] and not any(c[1] == "sat" for c in r["covers"]) and not r["cross"].get("effective"):
             vacuous.append("%s: no satisfiable cover (canary) - contradictory assumptions?" % r["unit"])
     missing_locked = sorted(n for n in locked if n not in discharged_names
                             and not any(o["name"] == n for _, o in refuted)
